@@ -634,9 +634,106 @@ func searchVsAdds(r *rep.Report, e rep.Env) {
 	}
 }
 
+// expiringItems: items with an expiry are read by several clients at once: rules that carry an
+// (unexpired) expiry are dispatched and fetched concurrently, and facts whose expiry has passed
+// are searched and fetched concurrently (the first reader purges them).  Oracle: the race
+// detector and the process staying alive, no request error, and afterwards expired items are
+// gone and the others complete, live and reloaded.
+func expiringItems(r *rep.Report, e rep.Env) {
+	rounds := e.Pick(2, 8)
+	for round := 0; round < rounds; round++ {
+		for _, kind := range drv.Kinds {
+			store := drv.MustMem()
+			loc, err := drv.NewLoc("X", kind, store)
+			if err != nil {
+				r.Violate("", "cannot build location", nil)
+				return
+			}
+			ctx := drv.Ctx()
+			for i := 0; i < 6; i++ {
+				loc.AddRule(ctx, fmt.Sprintf("xr%d", i), core.Map{"when": map[string]interface{}{"pattern": map[string]interface{}{"x": "go"}}, "action": map[string]interface{}{"code": "1"}, "expires": float64(4102444800 + i)})
+			}
+			for i := 0; i < 40; i++ {
+				loc.AddFact(ctx, fmt.Sprintf("short%d", i), core.Map{"k": "short", "n": float64(i), "ttl": 1.0})
+				loc.AddFact(ctx, fmt.Sprintf("long%d", i), core.Map{"k": "long", "n": float64(i)})
+			}
+			time.Sleep(2100 * time.Millisecond)
+			r.Journal(rep.J{"expiring_items": round, "state": kind})
+			var wg sync.WaitGroup
+			var errs int64
+			var firstErr atomic.Value
+			gate := make(chan bool)
+			note := func(err error) {
+				if err != nil {
+					atomic.AddInt64(&errs, 1)
+					firstErr.Store(err.Error())
+				}
+			}
+			for c := 0; c < 6; c++ {
+				wg.Add(1)
+				go func(c int) {
+					defer wg.Done()
+					<-gate
+					for i := 0; i < 12; i++ {
+						switch (c + i) % 4 {
+						case 0:
+							_, cond := loc.ProcessEvent(drv.Ctx(), core.Map{"x": "go"})
+							if cond != nil {
+								note(fmt.Errorf("%s", cond.Msg))
+							}
+						case 1:
+							_, err := loc.GetRule(drv.Ctx(), fmt.Sprintf("xr%d", i%6))
+							note(err)
+						case 2:
+							_, err := loc.SearchFacts(drv.Ctx(), core.Map{"k": "short"}, false)
+							note(err)
+						default:
+							if _, err := loc.GetFact(drv.Ctx(), fmt.Sprintf("short%d", (c*7+i)%40)); err != nil {
+								if _, nf := err.(*core.NotFoundError); !nf {
+									note(err)
+								}
+							}
+						}
+					}
+				}(c)
+			}
+			close(gate)
+			wg.Wait()
+			loc2, rerr := drv.NewLoc("X", kind, vstore.MemFrom(vstore.CopyState(store.State(drv.Ctx()))))
+			r.Case(true, fmt.Sprint("expiring", e.BatchSeed(), round, kind))
+			r.Count("expiring_item_rounds", 1)
+			wit := rep.J{"state": kind, "request_errors": errs, "an_error": firstErr.Load()}
+			if errs > 0 {
+				r.Violate("", "requests failed while several clients read items with an expiry", wit)
+				continue
+			}
+			if rerr != nil {
+				r.Violate("", "reload failed: "+rerr.Error(), wit)
+				continue
+			}
+			for name, l := range map[string]*core.Location{"live": loc, "reloaded": loc2} {
+				shorts, _ := l.SearchFacts(drv.Ctx(), core.Map{"k": "short"}, false)
+				longs, _ := l.SearchFacts(drv.Ctx(), core.Map{"k": "long"}, false)
+				rules, _ := l.ListRules(drv.Ctx(), false)
+				if shorts == nil || longs == nil || len(shorts.Found) != 0 || len(longs.Found) != 40 || len(rules) != 6 {
+					wit["view"] = name
+					if shorts != nil && longs != nil {
+						wit["expired_found"], wit["unexpired_found"], wit["rules"] = len(shorts.Found), len(longs.Found), len(rules)
+					}
+					r.Violate("", "after concurrent reads of expiring items the location does not hold exactly the unexpired ones", wit)
+				}
+			}
+		}
+	}
+}
+
 func main() {
 	e := rep.GetEnv()
 	r := rep.New(e)
+	if e.Batch == 0 {
+		r.WritePartial()
+		expiringItems(r, e)
+	}
 	clearVsWrites(r, e)
 	searchVsAdds(r, e)
 	nHist := e.Pick(240, 1500)
